@@ -329,6 +329,8 @@ func TestWorker(t *testing.T) {
 	stride := envInt("VERIF_STRIDE", 1)
 	deadline := int64(envInt("VERIF_DEADLINE", 0))
 	stopOnViol := os.Getenv("VERIF_STOP_ON_VIOLATION") != ""
+	agg := newSummary()
+	defer func() { enc.Encode(map[string]interface{}{"summary": agg}) }()
 	for i := from; i < to; i += stride {
 		if deadline > 0 && time.Now().Unix() >= deadline {
 			break
@@ -339,7 +341,10 @@ func TestWorker(t *testing.T) {
 			os.Exit(2)
 		}
 		res := runOne(t, sc, prop, i, seedFor(base, prop, i), nil, keepLog)
-		enc.Encode(res)
+		agg.add(&res)
+		if res.Verdict != "ok" || len(res.Prog) > 0 || os.Getenv("VERIF_ALL_RESULTS") != "" {
+			enc.Encode(res)
+		}
 		if res.Verdict == "harness-panic" {
 			os.Exit(2)
 		}
@@ -350,6 +355,95 @@ func TestWorker(t *testing.T) {
 			// a violating run may leave process-wide state behind: the driver
 			// continues the remaining indices in a fresh process
 			break
+		}
+	}
+}
+
+// Summary is the per-worker aggregate (one line at worker exit) so that the
+// driver does not have to parse one JSON line per run.
+type Summary struct {
+	Runs       int            `json:"runs"`
+	MinRun     int            `json:"min_run"`
+	MaxRun     int            `json:"max_run"`
+	Steps      int64          `json:"steps"`
+	SimNS      float64        `json:"sim_ns"`
+	Deliveries int64          `json:"deliveries"`
+	Anon       int            `json:"anon"`
+	Scenarios  map[string]int `json:"scenarios"`
+	Engines    map[string]int `json:"engines"`
+	Faults     map[string]int `json:"faults"`
+	Probes     map[string]int `json:"probes"`
+	Incon      map[string]int `json:"inconclusive"`
+	Verdicts   map[string]int `json:"verdicts"`
+	Distinct   []string       `json:"distinct"`   // hashes of (scenario,input,log) of non-trivial runs
+	Scheds     []string       `json:"scheds"`     // hashes of (scenario,log)
+	States     []string       `json:"states"`
+	distinct   map[uint64]bool
+	scheds     map[uint64]bool
+	states     map[string]bool
+}
+
+func newSummary() *Summary {
+	return &Summary{MinRun: -1, Scenarios: map[string]int{}, Engines: map[string]int{}, Faults: map[string]int{}, Probes: map[string]int{},
+		Incon: map[string]int{}, Verdicts: map[string]int{}, distinct: map[uint64]bool{}, scheds: map[uint64]bool{}, states: map[string]bool{}}
+}
+
+func h64(parts ...string) uint64 {
+	h := uint64(1469598103934665603)
+	for _, p := range parts {
+		for i := 0; i < len(p); i++ {
+			h ^= uint64(p[i])
+			h *= 1099511628211
+		}
+		h ^= 0xff
+		h *= 1099511628211
+	}
+	return h
+}
+
+func (a *Summary) add(r *Result) {
+	a.Runs++
+	if a.MinRun < 0 || r.Run < a.MinRun {
+		a.MinRun = r.Run
+	}
+	if r.Run > a.MaxRun {
+		a.MaxRun = r.Run
+	}
+	a.Steps += r.Steps
+	a.SimNS += float64(r.SimNS)
+	a.Deliveries += int64(r.Deliveries)
+	a.Anon += r.Anon
+	a.Scenarios[r.Scenario]++
+	a.Engines[r.Engine]++
+	a.Verdicts[r.Verdict]++
+	nf, np := 0, 0
+	for k, v := range r.Faults {
+		a.Faults[k] += v
+		nf += v
+	}
+	for k, v := range r.Probes {
+		a.Probes[k] += v
+		np += v
+	}
+	for k, v := range r.Incon {
+		a.Incon[k] += v
+	}
+	for _, s := range r.States {
+		if !a.states[s] {
+			a.states[s] = true
+			a.States = append(a.States, s)
+		}
+	}
+	sh := h64(r.Scenario, r.LogHash)
+	if !a.scheds[sh] {
+		a.scheds[sh] = true
+		a.Scheds = append(a.Scheds, fmt.Sprintf("%x", sh))
+	}
+	if (r.Deliveries > 0 || nf > 0 || np > 0) && (r.Verdict == "ok" || r.Verdict == "violation") {
+		dh := h64(r.Scenario, r.InputHash, r.LogHash)
+		if !a.distinct[dh] {
+			a.distinct[dh] = true
+			a.Distinct = append(a.Distinct, fmt.Sprintf("%x", dh))
 		}
 	}
 }
